@@ -74,8 +74,9 @@ SeedOps(k, solver) ==
                Spec("r1", St1("m1", 1, "m1", 1), 0, INF, G("g1")),
                Spec("r2", St1("m1", -1, "m2", 2), -INF, INF, Or2(G("g1"), G("g2"))),
                Spec("r3", St1("m2", -1, "m2", -1), 0, 2000, RuleNone)>>],
-          [a |-> "AddUserCons", s |-> 1, name |-> "uc1"],
+          \* (the variable first: the user constraint then has a term in it, see the driver)
           [a |-> "AddUserVar", s |-> 1, name |-> "uv1"],
+          [a |-> "AddUserCons", s |-> 1, name |-> "uc1"],
           [a |-> "SetObjective", s |-> 1, form |-> 2, d |-> [r \in RxU |-> IF r = "r3" THEN 2 ELSE IF r = "r1" THEN -1 ELSE 0]]>>
 
 RECURSIVE ApplyAll(_, _)
